@@ -24,9 +24,14 @@ func main() {
 	shards := fs.Int("shards", 16, "number of trace shards")
 	fam := fs.String("family", "", "value family")
 	only := fs.Int("only", -1, "run only this event id")
+	vectors := fs.String("vectors", "", "file of TLC-generated vectors (one JSON object per line)")
 	fs.Parse(os.Args[2:])
 	drv.Silence()
 	switch cmd {
+	case "poolseq":
+		runPoolSeq(*vectors, *out, *shards, *only)
+	case "poolconc":
+		runPoolConc(*seed, *tier, *out, *shards)
 	case "codec":
 		runCodec(*fam, *seed, *tier, *out, *shards, *only)
 	default:
